@@ -316,6 +316,11 @@ func (s *schemaBuilder) buildFromType(tpe types.Type, tgt swaggerTypable) error 
 	case *types.Interface:
 		return s.buildFromInterface(s.decl, titpe, tgt.Schema(), make(map[string]string))
 	case *types.Slice:
+		if elem, ok := titpe.Elem().(*types.Basic); ok && elem.Kind() == types.Uint8 {
+			// encoding/json renders a []byte as a base64-encoded string
+			tgt.Typed("string", "byte")
+			return nil
+		}
 		return s.buildFromType(titpe.Elem(), tgt.Items())
 	case *types.Array:
 		return s.buildFromType(titpe.Elem(), tgt.Items())
